@@ -383,6 +383,10 @@ class Check(Property):
         if not getattr(self, "_dim_hom_done", False):
             self._dim_hom_done = True
             dv = self.dim_hom_probe()
+            # unit expressions compare and hash equal exactly when the exponents are equal - also for containers that were hashed
+            # in another interpreter and arrived here through pickle
+            from .c18 import Check as C18
+            dv += C18.cross_process_probe(self)
             if dv:
                 return dv
         if c["layer"] == "pi":
